@@ -201,6 +201,11 @@ class History:
         self.cevents.append(f"EFault {c} {n}")
         self.meta.append(dict(kind="fault", c=c, n=n))
 
+    def cap(self, c: int, n: int):
+        """room left in connection c's send buffer, as seen by NON-BLOCKING sends only (implementation-side event: the
+        code under test and the model use blocking sends, for which the peer keeps reading - no effect on either)"""
+        self.jevents.append(dict(k="cap", c=c, n=n))
+
     def case_json(self) -> dict:
         return dict(loglevel=self.loglevel, timing=self.timing, timecode=self.timecode, events=self.jevents)
 
